@@ -8,6 +8,39 @@ execpy.install(globals(), _b, ['table', 'augments', 'object_lists', 'compliance'
 X = 'the real template + compile() + pysnmp executed concretely on every solver-explored shape; '
 
 
+def aug_order(first: bool, hy: bool, order: int) -> bool:
+    """
+    requires: 0 <= order < 6
+    """
+    # an augmenting row of the SAME module whose OID sorts before / after the row it augments (objects are emitted in OID
+    # order), the augmented row's name plain or hyphenated, three declaration orders
+    from harness import tok, smimodel as m
+    from harness.tok import seq
+    import itertools
+    base_arc, aug_arc = (9, 5) if first else (5, 9)
+    bname = 'b-Entry' if hy else 'bEntry'
+    parts = [
+        m.object_type('bTable', seq('SEQUENCE OF BEntry'), m.oid('iso', base_arc), access='not-accessible', descr=m.text('d'))
+        + m.object_type(bname, seq('BEntry'), m.oid('bTable', 1), access='not-accessible', descr=m.text('d'), index=[(False, 'b1')])
+        + m.sequence_type('BEntry', [('b1', 'Integer32')])
+        + m.object_type('b1', seq('Integer32'), m.oid(bname, 1), descr=m.text('d')),
+        m.object_type('aTable', seq('SEQUENCE OF AEntry'), m.oid('iso', aug_arc), access='not-accessible', descr=m.text('d'))
+        + m.object_type('aEntry', seq('AEntry'), m.oid('aTable', 1), access='not-accessible', descr=m.text('d'), augments=bname)
+        + m.sequence_type('AEntry', [('a1', 'Integer32')])
+        + m.object_type('a1', seq('Integer32'), m.oid('aEntry', 1), descr=m.text('d')),
+        m.object_type('sc', seq('Integer32'), m.oid('iso', 7), descr=m.text('d'))]
+    body = [parts[i] for i in pick(list(itertools.permutations(range(3))), order)]
+    try:
+        tok.compile_trees(tok.parse_tokens(m.module('M', [], body)), backend='json')
+    except error.PySmiError:
+        return False
+    return True
+
+
+x_aug_order = execpy.wrap(aug_order, ('kind', 'oid', 'access', 'basetype', 'refs'), 'x_aug_order')
+xs_aug_order = execpy.wrap(aug_order, ('kind', 'oid', 'access', 'basetype', 'refs'), 'xs_aug_order', strict=True)
+
+
 def conditions(prop, tier):
     q = tier == 'quick'
     t = 280 if q else 1500
@@ -26,9 +59,11 @@ def conditions(prop, tier):
                 for has_seq in (False, True):
                     out.append(dict(name='C06.exec.table.c%d.i%d.s%d' % (ncols, nidx, has_seq), fn='x_table',
                                     fixed=dict(ncols=ncols, nidx=nidx, has_seq=has_seq),
-                                    extra_pre=['order < 6'] + (['x2 == 0 and not im2'] if nidx < 3 else []) + (['x1 == 0 and not im1'] if nidx < 2 else []),
+                                    extra_pre=['order < 3'] + (['x2 == 0 and not im2'] if nidx < 3 else ['x2 <= 3 and not im2 and not im1']) + (['x1 == 0 and not im1'] if nidx < 2 else []),
                                     timeout=t, bounds=T % (ncols, nidx)))
     out.append(dict(name='C06.exec.augments', fn='x_augments', fixed={}, timeout=t, bounds=X + 'AUGMENTS of a local / imported row, declaration orders'))
+    out.append(dict(name='C06.exec.augments-oid-order', fn='x_aug_order', fixed={}, timeout=t,
+                    bounds=X + 'augmenting row whose OID sorts before / after the augmented row of the same module, plain / hyphenated row name, declaration orders'))
     for kind in range(4):
         out.append(dict(name='C06.exec.object-lists.k%d' % kind, fn='x_object_lists', fixed=dict(kind=kind),
                         extra_pre=['n <= 2 and p < 2'] if q else [], timeout=t,
@@ -41,5 +76,6 @@ def conditions(prop, tier):
 
 
 def selftests(prop):
-    return [('x_table', dict(ncols=2, nidx=2, x0=0, x1=3, x2=0, im0=False, im1=True, im2=False, has_seq=True, order=0, hy=False)),
+    return [('x_aug_order', dict(first=True, hy=True, order=0)),
+            ('x_table', dict(ncols=2, nidx=2, x0=0, x1=3, x2=0, im0=False, im1=True, im2=False, has_seq=True, order=0, hy=False)),
             ('x_compliance', dict(nmod=2, named=False, nmand=2, c0=0, c1=0, c2=0, ncl=2))]
